@@ -151,7 +151,7 @@ class StandardQTomography(QTomography):
         """
         matA = self.calc_matA()
         rank = np.linalg.matrix_rank(matA)
-        size = min(matA.shape)
+        size = matA.shape[1]
         return size == rank
 
     @abstractmethod
